@@ -70,6 +70,12 @@ type GenOpts struct {
 	Big int
 	// Collide: the first methods of the first two interfaces have the same name
 	Collide bool
+	// ThirdParty: the setup file imports a package of another (required, locally
+	// replaced) module
+	ThirdParty bool
+	// Surroundings: 1..3 force a project notation file / a settings file with a header
+	// / a state directory at the module root
+	Surroundings int
 }
 
 var RejectFamilies = []string{
@@ -113,6 +119,12 @@ func GenWorld(r *Rng, opts GenOpts, variantCount int) *WorldSpec {
 		w.Files["mod/go.mod"] = "module example.com/w\n\ngo 1.19\n"
 	}
 
+	sr := Derive(int64(r.Uint64()), "surroundings")
+	thirdParty := opts.Reject == "" && (opts.ThirdParty || sr.Chance(1, 6))
+	surroundings := sr.Intn(9) // 0..2: something is there, else nothing
+	if opts.Surroundings > 0 {
+		surroundings = opts.Surroundings - 1
+	}
 	// --- data packages
 	nStructs := r.Range(1, 3)
 	names := append([]string(nil), structNames...)
@@ -610,6 +622,14 @@ func GenWorld(r *Rng, opts GenOpts, variantCount int) *WorldSpec {
 			gi := genIntf{name: "CodecConv", marked: true}
 			gi.methods = append(gi.methods, genMethod{name: "CodedToOut", notations: []string{":conv codec.Encode ID"}, sig: "CodedToOut(*Coded) (*CodedOut, error)"})
 			intfs = append(intfs, gi)
+		}
+		if thirdParty {
+			imp("", "example.com/dep/kinds")
+			gi := genIntf{name: "KindConv", marked: true}
+			gi.methods = append(gi.methods, genMethod{name: "KindToModel", sig: "KindToModel(*kinds.Kind) *" + modAlias + "." + defs[0].name})
+			intfs = append(intfs, gi)
+		}
+		switch opts.Reject {
 		case "gomod-lagging":
 			// the user's go.mod lags behind the imports: a replace without the require
 			imp("", "example.com/dep/kinds")
@@ -782,6 +802,35 @@ func GenWorld(r *Rng, opts GenOpts, variantCount int) *WorldSpec {
 		w.Files["mod/codec/v2/codec.go"] = "// Package codec, second major version: encoding can fail.\npackage codec\n\nimport \"strconv\"\n\nfunc Encode(id int64) (string, error) {\n\treturn strconv.FormatInt(id, 36), nil\n}\n"
 		w.Files["mod/legacy/codec/codec.go"] = "package codec\n\nimport \"strconv\"\n\nfunc Encode(id int64) string {\n\treturn strconv.FormatInt(id, 10)\n}\n"
 		w.Files[dir+"/zz_legacy_codec.go"] = "package " + pkgName + "\n\nimport oldcodec \"example.com/w/legacy/codec\"\n\n// EncodeLegacy keeps the old wire format available.\nvar EncodeLegacy = oldcodec.Encode\n"
+	}
+	if thirdParty {
+		// an import from ANOTHER module, properly required (and replaced by a local
+		// directory, so that nothing has to be fetched): the generated import block
+		// then holds an own-module and a third-party path side by side
+		w.Files["mod/go.mod"] = "module example.com/w\n\ngo 1.19\n\nrequire example.com/dep v0.0.0\n\nreplace example.com/dep => ../outside/dep\n"
+		w.Files["outside/dep/go.mod"] = "module example.com/dep\n\ngo 1.19\n"
+		w.Files["outside/dep/kinds/kinds.go"] = "package kinds\n\ntype Kind struct {\n\tID int64\n}\n"
+		// (the go command resolves the relative replace against the LOGICAL module
+		// root: entered through elsewhere/modlink that is elsewhere/outside/dep)
+		w.Files["elsewhere/outside/dep/go.mod"] = w.Files["outside/dep/go.mod"]
+		w.Files["elsewhere/outside/dep/kinds/kinds.go"] = w.Files["outside/dep/kinds/kinds.go"]
+		feat["third-party-import"] = true
+	}
+	// surroundings of the package that today's tool does not look at: a project file
+	// or directory at the module root, a header file, a user-wide settings file
+	switch surroundings {
+	case 0:
+		w.Files["mod/.convergen"] = "# project-wide defaults\n:typecast\n:stringer\n"
+		feat["surroundings:notation-file"] = true
+	case 1:
+		w.Files["mod/.convergen"] = "# project settings\nheader = HEADER.txt\n"
+		w.Files["mod/HEADER.txt"] = "// Copyright (c) Example Corp. All rights reserved.\n"
+		w.Files["home/.config/convergen/settings"] = "header = HEADER.txt\n"
+		w.Files["home/.config/convergen/HEADER.txt"] = w.Files["mod/HEADER.txt"]
+		feat["surroundings:settings-file"] = true
+	case 2:
+		w.Files["mod/.convergen/README"] = "state directory of the generator\n"
+		feat["surroundings:state-directory"] = true
 	}
 	if opts.Reject == "gomod-lagging" {
 		w.Files["mod/go.mod"] = "module example.com/w\n\ngo 1.19\n\nreplace example.com/dep => ../outside/dep\n"
